@@ -45,6 +45,8 @@ def plan(tier):
         p += [("core_maths", S["core_maths"], n, None) for n in range(1, 6)]
         p += [(k, S[k], n, None) for k in ("ext_maths", "base_e_maths") for n in range(1, 5)]
         p += [("keep_duplicates", S["keep_duplicates"], n, None) for n in range(1, 4)]
+        p += [("base_e_maths", S["base_e_maths"], 5, None)]          # smallest shipped library with log of a negative net power under '-'
+        p += [("core_maths", S["core_maths"], 7, 3000)]             # seeded sample of the first complexity at which sums with a cancelling term have 3 summands
         p += [(k, U[k], n, None) for k in U for n in range(1, 6)]
         p += [(k, FAMILY[k], n, None) for k in ("verif_u6", "verif_u6_sub_div_pow") for n in range(1, 5)]
     else:
